@@ -27,7 +27,13 @@ func deleteChildOperator(d *dataTreeNavigator, context Context, expressionNode *
 		childPath := candidatePath[len(candidatePath)-1]
 
 		if parentNode.Kind == MappingNode {
-			deleteFromMap(candidate.Parent, childPath)
+			// locate the entry itself: comparing key text with the parsed path element
+			// never matches integer keys ({0: a} | del(.[0]) deleted nothing)
+			if index := indexOfChild(parentNode, candidate); index >= 0 {
+				deleteFromMap(candidate.Parent, parentNode.Content[index-index%2].Value)
+			} else {
+				deleteFromMap(candidate.Parent, childPath)
+			}
 		} else if parentNode.Kind == SequenceNode {
 			// the key recorded on an element can be stale (sort, reverse, slices, collect, +
 			// keep the index an element had in its old container), so locate the element itself.
